@@ -33,7 +33,9 @@ def check_c20(tier, replay):
         counts = {"replay": 1}
     else:
         fams = ["F20", "F5"] if tier == "quick" else ["F20", "F1", "F5", "F4", "F8"]
-        cases, counts = S.gen_families(fams, tier, work)
+        # (the thorough tier adds families, not longer haystacks: every recorded step is validated by TLC, about
+        # a million events a minute, and the families' thorough haystack sets would make 600 million events)
+        cases, counts = S.gen_families(fams, "quick", work)
     ncases = sum(counts.values())
     shards = min(8, max(1, ncases))
     trace_files = []
